@@ -69,14 +69,16 @@ def _universes(env, conf):
     """the generated universes, printed by TLC from spec/Universe.tla, for the runner"""
     from common import tlc, parse_tla
     r = tlc('PrintUniverses', 'PrintUniverses.cfg', env={'SPIL_CONF_JSON': conf}, workers=1, timeout=300)
-    out = {}
+    out, junk = {}, {}
     for v in r.printed():
         if isinstance(v, list) and v and v[0] == 'UNIVERSE':
             out[v[1]] = v[2]
+        elif isinstance(v, list) and v and v[0] == 'JUNK':
+            junk.setdefault(v[1], {})[v[2]] = v[3]
     if not out:
         raise Machinery('no universes printed:\n' + r.out[-2000:])
     p = os.path.join(env.dir, 'universes.json')
-    json.dump(out, open(p, 'w'))
+    json.dump(dict(universes=out, junk=junk), open(p, 'w'))
     return p
 
 
@@ -224,4 +226,29 @@ def check_C06(tier):
         rep.guard(any(k.endswith(':' + t) for k in rep.cover) or not calls, 'no %s path exercised' % t)
     rep.assumptions = ['theorem checked by TLC on the spec: OwnerOnly (a typed result formats back to the path)',
                        'strict (type, fields) comparison is dropped where the spec finds the parse ambiguous; the owner clause is kept']
+    return rep.finish()
+
+
+def store_envs(n, src_env):
+    """one private configuration copy (hence one private pair of file trees) per shard"""
+    return [Env(repo=src_env.repo) for _ in range(n)]
+
+
+@reg
+def check_C11(tier):
+    rep = Report('C11', tier)
+    env = Env()
+    conf = extract_conf(env)
+    env.run('probe_routing.py', [conf])
+    calls = K.spec_to_code(rep, env, conf, 'MC_Search', 'MC_Search_finders_%s.cfg' % tier,
+                           'C11 family: searches x store universes; FindersAgree and JunkChangesNothing on the model')
+    uni = _universes(env, conf)
+    calls.sort(key=lambda c: c['univ'])
+    K.code_to_spec(rep, env, conf, calls, 'every search through FindInList / FindInPaths(local, server) / FindInAll on materialised trees, clean and with junk',
+                   tag='finders', extra={'SPIL_UNIVERSES': uni, 'SPIL_CONF_JSON': conf}, envs=store_envs(8, env), per=40, chunk=2000)
+    rep.exhaustive = True
+    rep.guard(any(t.startswith('finders:pathbacked') and t.endswith('found') for t in rep.cover) or not calls, 'no path-backed search with results')
+    rep.guard(any(t.startswith('finders:mixed') for t in rep.cover) or not calls, 'no constant-backed level exercised')
+    rep.assumptions = ['universes and junk are those of spec/Universe.tla and spec/Store.tla (JunkOf)',
+                       'agreement is claimed for type-complete searches over path-backed, non-constant types; constant-backed levels are validated against the constants semantics of the spec']
     return rep.finish()
